@@ -5,6 +5,16 @@ HERE = os.path.dirname(os.path.dirname(os.path.abspath(__file__)))
 ALL = ['C%02d' % i for i in range(1, 21)]
 
 CLAIMED = {
+ 'C03': dict(
+    level='model_checking',
+    text='QVMTypes.tla gives the type-level semantics of every QVM instruction and device operation (operand types required on the stack, '
+         'cells popped and pushed with their types); Trace_QVMSafe.tla is a trace specification that validates every executed instruction '
+         'of real runs of generated and hand-written programs (6 configurations) against it: operand types, stack effect, result types, '
+         'stability of the type held by each cell, typed reads, absence of machine-level fault traps, and the operand-stack depth at '
+         'every statement boundary (depth at routine entry + active GOSUBs, frames and GOSUBs tracked by the spec).',
+    note='Concrete-run monitor only: paths not executed are not examined (the all-paths abstract exploration planned in DESIGN.md 3.5 is not built). Trusted: TLC, the tick recorder; a cell\'s declared type is approximated by the type of its first store.',
+    technique='TLA+ type-level instruction semantics; trace validation of every tick of real runs',
+    design='6 C03'),
  'C02': dict(
     level='model_checking',
     text='MC_ConstExpr.tla enumerates every constant expression a op b / op a over every operator, every ordered pair of operand types '
